@@ -240,6 +240,23 @@ func main() {
 		}
 	}
 	ctx.Jobs("search", len(jobs), func(j int) { sp.RunPlanCfgShard(ctx, jobs[j].p, jobs[j].cfg, jobs[j].op, check) })
+	ctx.Jobs("value-sweeps", 8, func(j int) {
+		for i, c := range sp.ValueSweeps() {
+			if i%8 != j {
+				continue
+			}
+			in := sp.Build(c.Cfg, c.Al, c.Ops)
+			ctx.Eval()
+			ctx.Add("sweep_values", 1)
+			sig, what := strictCheck(in, c.Cfg)
+			if sig != "" && ctx.SigCount(sig) < 20 {
+				d := sp.HistoryDetail(c.Cfg, "sweep", c.Ops[:min(len(c.Ops), 12)], c.Al, what)
+				d["sweep"] = c.Name
+				d["sweep_value"] = c.Val
+				ctx.Violation(sig+":"+c.Name, d)
+			}
+		}
+	})
 	const parts = 32
 	ctx.Jobs("vlq", parts, func(j int) {
 		step := uint64(1<<28) / parts
